@@ -1424,3 +1424,44 @@ class C08S(PropOracle):
 
 
 ORACLES["C08S"] = C08S
+
+
+class C10S(PropOracle):
+    """System-level half of C10: the submitter field on disk is taken only when free and given up only
+    by the process that took it."""
+
+    prop = "C10"
+
+    def __init__(self):
+        self.holder = None
+        self.disk = None
+
+    def digest(self):
+        return repr((self.holder, self.disk))
+
+    def on_transition(self, w, vp, d):
+        if "cluster_config.json" not in w.written:
+            return
+        c = read_json(w.rootp + "cluster_config.json")
+        if c is None:
+            return
+        new = c.get("submitter")
+        old = self.disk
+        self.disk = new
+        if new == old:
+            return
+        who = vp.name
+        if old is None and new is not None:
+            if self.holder is not None and self.holder != who:
+                self.v(w, f"{who} became submitter ({new}) while {self.holder} holds the role", "two-submitters")
+            self.holder = who
+        elif old is not None and new is None:
+            if self.holder is not None and self.holder != who and not w.data.get("faulty"):
+                self.v(w, f"{who} cleared the submitter role held by {self.holder} ({old})", "role-cleared-by-other")
+            self.holder = None
+        else:
+            self.v(w, f"{who} replaced submitter {old} by {new} without a demotion in between", "role-replaced")
+            self.holder = who
+
+
+ORACLES["C10S"] = C10S
